@@ -31,6 +31,7 @@ from piquasso.core import _expressions  # noqa: E402
 ERR = {
     "InvalidParameter": 1, "InvalidSimulation": 2, "InvalidModes": 3, "InvalidState": 4,
     "InvalidProgram": 5, "ValueError": 6, "PiquassoException": 7, "Injected": 8,
+    "InactiveModes": 9,
 }
 
 
